@@ -37,7 +37,7 @@ ASSUMPTIONS = ["every agent of a type carries the same property names (the prope
                "requested states occur at least once during the run (a state that never occurs has no column to compare)"]
 FAULT_KINDS = []
 PROBES = ["group_with_distinct_min_max_mean", "state_empty_then_populated", "negative_and_fractional_values", "agents_deleted_mid_run",
-          "format_df", "format_dict", "format_json", "negative_stop_time"]
+          "format_df", "format_dict", "format_json", "negative_stop_time", "two_scenarios_of_a_class_path_manager"]
 EXHAUSTIVE = {"quick": False, "thorough": False}
 PTYPES = ["total", "min", "max", "mean"]
 
@@ -53,14 +53,20 @@ def generate(spec):
     sc = W.gen_scenario(rng, allow_zero_stop=True)
     # richer populations: the four aggregates should differ
     sc["init"] = [["a", rng.choice([2, 3, 4, 5])], ["b", rng.choice([0, 1, 3])]]
-    via = rng.choice(["direct", "bptk", "bptk"])
+    via = rng.choice(["direct", "bptk", "bptk", "bptk_class"])
     sel = {"agents": rng.sample(["a", "b"], rng.choice([1, 2])),
            "states": rng.sample(W.STATES, rng.choice([1, 2, 3])),
            "properties": rng.sample(["x", "n"], rng.choice([0, 1, 2])),
            "types": rng.sample(PTYPES, rng.choice([1, 2, 4]))}
     if not sel["properties"]:
         sel["types"] = []
-    return {"property": PROPERTY, "via": via, "scenario": sc, "selection": sel}
+    case = {"property": PROPERTY, "via": via, "scenario": sc, "selection": sel}
+    if via == "bptk_class":
+        # a second scenario of the same manager, run in the same call
+        sc2 = W.gen_scenario(rng, allow_zero_stop=True, small=True)
+        sc2["init"] = [["a", rng.choice([1, 2, 6])], ["b", rng.choice([0, 2])]]
+        case["scenario2"] = sc2
+    return case
 
 
 def aggregates(snap):
@@ -210,20 +216,35 @@ def execute(case):
         compared = True
     else:
         with patches.installed(threads="serial", global_thread=True):
-            b, models = W.build_bptk([sc])
+            two = case["via"] == "bptk_class"
+            scs = [sc, case["scenario2"]] if two else [sc]
+            b, models = W.build_bptk(scs, class_path=two)
             m = models[0]
             first = None
             try:
-                first = b.run_scenarios(scenarios=["s0"], scenario_managers=["smAbm"], agents=["a"], agent_states=["idle"], series_names={},
-                                        return_format="dict")
+                first = b.run_scenarios(scenarios=["s%d" % n for n in range(len(scs))], scenario_managers=["smAbm"], agents=["a"],
+                                        agent_states=["idle"], series_names={}, return_format="dict")
             except Exception as e:
                 res.violate("C13.run-raised", {"exception": type(e).__name__, "message": str(e)[:100]})
+            if two:
+                res.probe("two_scenarios_of_a_class_path_manager")
+            rich = False
+            compared = False
+            for n, mm in enumerate(models):
+                stats = mm.statistics()
+                snaps = mm.world.snaps
+                before = len(res.violations)
+                rich = check_stats(res, stats, snaps) or rich
+                for v in res.violations[before:]:
+                    v.detail["scenario"] = "s%d" % n
+                if not res.violations:
+                    compared = check_outputs(res, b, "s%d" % n, stats, case["selection"], log) or compared
+                for v in res.violations[before:]:
+                    v.detail.setdefault("scenario", "s%d" % n)
+                if res.violations:
+                    break
             stats = m.statistics()
             snaps = m.world.snaps
-            rich = check_stats(res, stats, snaps)
-            compared = False
-            if not res.violations:
-                compared = check_outputs(res, b, "s0", stats, case["selection"], log)
             try:
                 b.destroy()
             except Exception:
@@ -251,8 +272,8 @@ def execute(case):
 
 def shrink(case):
     sc = case["scenario"]
-    for key in ("pop", "states", "props", "sends"):
-        if sc[key]:
+    for key in ("pop", "states", "props", "sends", "acts"):
+        if sc.get(key):
             for cand in shrink_list(sc[key]):
                 c = copy.deepcopy(case)
                 c["scenario"][key] = copy.deepcopy(cand)
@@ -262,15 +283,15 @@ def shrink(case):
         c["scenario"]["stop"] = sc["stop"] - 1
         spr = round(1 / sc["dt"])
         kmax = (c["scenario"]["stop"] - sc["start"] + 1) * spr
-        for key in ("pop", "states", "props", "sends"):
-            c["scenario"][key] = [x for x in c["scenario"][key] if x["k"] <= kmax]
+        for key in ("pop", "states", "props", "sends", "acts"):
+            c["scenario"][key] = [x for x in c["scenario"].get(key, []) if x["k"] <= kmax]
         yield c
     if sc["dt"] != 1.0:
         c = copy.deepcopy(case)
         c["scenario"]["dt"] = 1.0
         kmax = sc["stop"] - sc["start"] + 1
-        for key in ("pop", "states", "props", "sends"):
-            c["scenario"][key] = [x for x in c["scenario"][key] if x["k"] <= kmax]
+        for key in ("pop", "states", "props", "sends", "acts"):
+            c["scenario"][key] = [x for x in c["scenario"].get(key, []) if x["k"] <= kmax]
         yield c
     sel = case["selection"]
     for key in ("agents", "states", "properties", "types"):
